@@ -1,6 +1,6 @@
 (* C07 -- Totality.  ONLY property theorems here.  The general statement over the whole pipeline is NOT a theorem:
    tree-sitter, the CST->AST layer and the renderer are outside any Gallina model (see DESIGN.md section 8). *)
-From QV Require Import model.Base model.Lang model.Types model.Tir model.Builder model.Passes model.TirCase gen.GenE0 proofs.InterpProofs proofs.BuilderSafe proofs.BuilderSafeStmt.
+From QV Require Import model.Base model.Lang model.Types model.Tir model.Builder model.Passes model.TirCase gen.GenE0 proofs.InterpProofs proofs.BuilderSafe proofs.BuilderSafeStmt proofs.BuilderSafeSwitch.
 
 (* the constant interpreter terminates on EVERY code body, well-formed or not *)
 Theorem C07_interp_total : forall E c, evaluate_code E c <> OutOfFuel.
@@ -20,17 +20,29 @@ Proof.
   destruct (walk_expr E env e s) as [[a| |x] s']; tauto.
 Qed.
 Print Assumptions C07_expressions_never_panic.
-(* ... and so do statements: blocks, declarations, if / else, return, break, expression statements in any nesting (every statement form but
-   switch, whose positional label arithmetic is not covered by this theorem).  The environment handed on names existing locals only. *)
-Theorem C07_switch_free_statements_never_panic : forall E s, noswitch s = true -> forall env brk st,
+(* ... and so do statements -- blocks, declarations, if / else, switch with case labels of any shape, default anywhere, fall-through and
+   break, return, expression statements, in any nesting -- provided a default clause sits at a position between 0 and the number of cases
+   (what the parser produces).  The environment handed on names existing locals only. *)
+Theorem C07_statements_never_panic : forall E s, wfsw s = true -> forall env brk st,
   Good st -> envwf (nloc st) env ->
   match walk_stmt E env brk s st with
   | (P _, _) => False
   | (V (ok, env'), st') => RegB (nb st) st st' /\ envwf (nloc st') env'
   | (F, st') => RegB (nb st) st st'
   end.
-Proof. intros E s Hs env brk st G Hw. exact (walk_stmt_safe_noswitch E s Hs env brk st (nb st) G Hw (le_n _)). Qed.
-Print Assumptions C07_switch_free_statements_never_panic.
+Proof. intros E s Hs env brk st G Hw. exact (walk_stmt_safe E s Hs env brk st (nb st) G Hw (le_n _)). Qed.
+Print Assumptions C07_statements_never_panic.
+(* the whole translation of a binding or a handler (typedexpr.rs walk / walk_callback with the CodeBuilder visitor), from the initial builder
+   state: for EVERY class environment and EVERY callback no assert, index or unwrap of typedexpr.rs / tir/builder.rs fires *)
+Theorem C07_translator_never_panics : forall E cb, wf_callback cb = true ->
+  match walk_callback E cb bstate0 with (P _, _) => False | _ => True end.
+Proof. exact walk_callback_never_panics. Qed.
+Print Assumptions C07_translator_never_panics.
+(* the hypothesis is about something: a switch whose default stands in the middle, with a multi-block case label and a nested if *)
+Example C07_wf_example : wf_callback (CStmt (SSwitch (EInt 1)
+    [(EInt 1, [SExpr (EInt 1)]); (ETernary (EBool true) (EInt 2) (EInt 3), [SIf (EBool true) (SBlock [SBreak false]) None])]
+    (Some (1%nat, [SReturn None])))) = true.
+Proof. reflexivity. Qed.
 (* the initial builder state is such a state *)
 Example C07_initial_state_good : Good bstate0.
 Proof. split; [apply le_n|]. exists block0. split; reflexivity. Qed.
